@@ -140,7 +140,9 @@ end
 `WF lo hi t`: every key stored below `t` lies in `[lo, hi)` (`none` = unbounded), leaf keys are
 strictly ascending, a branch has at least one child, and child `i` is well-formed for
 `[if i = 0 then lo else kᵢ, kᵢ₊₁ or hi)`.  The leftmost child may hold keys *below* its own branch key:
-that slack is exactly what the "slot before" search relies on.  Leaves may be empty (a transaction can
+that slack is exactly what the "slot before" search relies on.  Every non-first branch key lies inside
+the bounds of the forest it occurs in (without this an empty child under an inverted interval would be
+vacuously well-formed: found by the proof attempt, see Proofs/TreeCounterexample.lean).  Leaves may be empty (a transaction can
 empty a leaf; it stays in the tree until commit). -/
 
 def inLo (lo : Option K) (k : K) : Prop := match lo with | none => True | some l => kle l k = true
@@ -158,7 +160,7 @@ inductive WFF : Option K → Option K → K → Tree K E → Forest K E → Prop
   | last (lo hi : Option K) (k : K) (t : Tree K E) :
       WF lo hi t → WFF lo hi k t .nil
   | cons (lo hi : Option K) (k : K) (t : Tree K E) (k' : K) (t' : Tree K E) (rest : Forest K E) :
-      klt k k' = true →
+      klt k k' = true → inLo lo k' → inHi hi k' →
       WF lo (some k') t → WFF (some k') hi k' t' rest → WFF lo hi k t (.cons k' t' rest)
 end
 
